@@ -179,6 +179,27 @@ def build_cases(tier, wd):
                  f"<math><semantics><mi>x</mi><annotation encoding='application/x-tex'>{txt}</annotation></semantics></math>"]
         for h in (hosts if tier == "thorough" else rng.sample(hosts, 2)):
             cases.append({"mathml": h, "origin": "escape-matrix", "idmode": "none", "spicy": False, "locale": None})
+    # rows of adjacent tokens that the clean-up passes merge, split or move (omission marks, primes, dots, bars, digits and
+    # separators, 'arc' + trig name, blanks, pseudo scripts), each run followed by nothing, a token, or a non-token sibling, at
+    # top level and inside implied rows: every pair exhaustively, longer runs seeded
+    mergeable = ["<mo>_</mo>", "<mi>_</mi>", "<mtext>_</mtext>", "<mtext>&#xA0;</mtext>", "<mo>&#xA0;</mo>", "<mo>'</mo>", "<mo>′</mo>", "<mo>.</mo>", "<mo>-</mo>",
+                 "<mo>−</mo>", "<mo>|</mo>", "<mo>:</mo>", "<mo>=</mo>", "<mo>&lt;</mo>", "<mo>!</mo>", "<mo>*</mo>", "<mo>°</mo>", "<mo>/</mo>", "<mo>,</mo>",
+                 "<mn>1</mn>", "<mn>234</mn>", "<mi>a</mi>", "<mi>arc</mi>", "<mi>sin</mi>", "<mi>d</mi>", "<mi>x</mi>", "<mi>A</mi>", "<mi>B</mi>", "<mtext>cm</mtext>",
+                 # scripts on an empty base (prescripts in the making) and scripts whose base is not a token
+                 "<msub><mrow/><mi>a</mi></msub>", "<msup><mi/><mn>2</mn></msup>", "<msubsup><mrow/><mn>1</mn><mn>2</mn></msubsup>",
+                 "<msup><mrow><mo>(</mo><mi>x</mi><mo>+</mo><mi>y</mi><mo>)</mo></mrow><mn>2</mn></msup>", "<msub><mfrac><mi>x</mi><mi>y</mi></mfrac><mn>5</mn></msub>"]
+    followers = ["", "<mi>z</mi>", "<mo>+</mo><mi>z</mi>", "<mfrac><mn>1</mn><mn>2</mn></mfrac>", "<msup><mi>x</mi><mn>2</mn></msup>",
+                 "<mrow><mi>p</mi><mo>+</mo><mi>q</mi></mrow>", "<msqrt><mi>y</mi></msqrt>", "<mfenced><mi>u</mi><mi>v</mi></mfenced>"]
+    leaders = ["", "<mn>3</mn><mo>+</mo>", "<mi>k</mi>"]
+    hosts = ["<math>{}</math>", "<math><msqrt>{}</msqrt></math>", "<math><mfrac><mrow>{}</mrow><mn>7</mn></mfrac></math>",
+             "<math><mtable><mtr><mtd>{}</mtd><mtd><mn>7</mn></mtd></mtr></mtable></math>", "<math><msup><mi>q</mi><mrow>{}</mrow></msup></math>"]
+    runs = [list(p_) for p_ in itertools.product(mergeable, repeat=2)]
+    r3 = random.Random(C.seed() * 4243)
+    runs += [[r3.choice(mergeable) for _ in range(r3.choice([3, 3, 4, 5]))] for _ in range(1500 if tier == "quick" else 20000)]
+    for ri, run in enumerate(runs):
+        combos = [(f, l, h) for f in followers for l in leaders for h in hosts]
+        for f, l, h in (combos if tier == "thorough" and ri < len(mergeable) ** 2 else r3.sample(combos, 3)):
+            cases.append({"mathml": h.format(l + "".join(run) + f), "origin": "sibling-merge-row", "idmode": "none", "spicy": True, "locale": None})
     corpus = mml.corpus()
     if tier == "quick":
         corpus = rng.sample(corpus, 700)
